@@ -1,5 +1,6 @@
 import Mkts.Proto
 import Mkts.Extracted.Facts
+import Mkts.Extracted.Skeletons
 import Mkts.Model.Store
 import Mkts.Model.VStore
 import Mkts.Model.Project
@@ -259,7 +260,7 @@ def stepM (bs : List Bucket) (st : String) : Option (List Bucket × String × Op
           let dupd := present.filter (fun sy => (listed.filter (· == sy)).length > 1)
           let evalOne := fun (sy : String) =>
             let k := s!"{sy}/{tfs}/{ag}"
-            let m := (listed.filter (· == sy)).length
+            let m := if Mkts.Project.restrictionIsSet then 1 else (listed.filter (· == sy)).length
             if m ≤ 1 then (step bs (":".intercalate ["Q", k, ss, sn, es, en, lim, dir, cols])).map (fun r => (k, r))
             else
               match find bs k, step bs (":".intercalate ["Q", k, ss, sn, es, en, "-", "-", cols]),
